@@ -243,6 +243,9 @@ CHECKS["C06"] = {
             {"run": "TestVfC06Reuse", "quick": 2400, "thorough": 100000, "shards_quick": 16, "shards_thorough": 16, "args": ["-rapid.steps", "40"], "timeout_thorough": 3400},
             {"run": "TestVfC06RespTimeout", "quick": 16, "thorough": 320, "shards_quick": 16, "shards_thorough": 16, "shrinktime": "30s"},
         ]},
+        {"engine": "P", "pkg": "internal/upstream", "tests": [
+            {"run": "TestVfC06FallbackLeg", "quick": 240, "thorough": 24000, "shards_quick": 8, "shards_thorough": 16, "timeout_thorough": 3000},
+        ]},
     ],
     "assumptions": ["the fake server sends exactly one reply per query, echoing the query's ID"],
 }
@@ -272,6 +275,8 @@ CHECKS["C17"] = {
             {"run": "TestVfC17DialTarget", "quick": 4000, "thorough": 6000000, "timeout_thorough": 3000, "shards_quick": 4, "shards_thorough": 16},
             {"run": "TestVfC17QuicTarget", "quick": 60, "thorough": 600, "shards_quick": 1, "shards_thorough": 1, "exclusive": True},
             {"run": "TestVfC17ServerName", "quick": 200, "thorough": 120000, "timeout_thorough": 3000, "shards_quick": 2, "shards_thorough": 4},
+            # the TCP leg of a udp upstream is a second dial of the same upstream: it has to go to the dial_addr override as well
+            {"run": "TestVfC16Fallback", "quick": 600, "thorough": 60000, "timeout_thorough": 3000, "shards_quick": 8, "shards_thorough": 16},
         ]},
         {"engine": "E", "proxy": ["plain"], "tests": [
             {"run": "TestVfC17UpstreamAuth", "quick": 160, "thorough": 120000, "timeout_thorough": 3000, "shards_quick": 8, "shards_thorough": 16, "shrinktime": "15s"},
